@@ -89,7 +89,16 @@ impl Prop for C17Prop {
         .gen("C17", seed, idx);
         {
             let mut sr = Rng::new(seed, "config.special");
-            if sr.chance(1, 40) {
+            if sr.chance(1, 25) {
+                // a hub joined to identical parts by spokes whose weights differ in the 12th-13th digit: candidate
+                // communities that are nearly, but not exactly, tied (weighted run forced below)
+                let (d, m, l) = gen::kind_from(idx as usize % 8);
+                let mut wr = Rng::new(seed, "workload.graded");
+                let (specs, ops) = gen::gen_graph(&mut wr, &gen::GraphOpts { directed: d, multi: m, self_loops: l, n_min: 14, n_max: 30, regime: WeightRegime::Dyadic, shape: Some(Shape::GradedHub), sprinkle: false });
+                case.specs = specs;
+                case.ops = ops;
+                case.params.put("source", J::s("hub with graded spokes"));
+            } else if sr.chance(1, 40) {
                 // regular graphs with more than a thousand edges (every node order gives the same degree profile)
                 let (d, _, l) = gen::kind_from(idx as usize % 8);
                 let mut wr = Rng::new(seed, "workload.regular");
@@ -113,7 +122,8 @@ impl Prop for C17Prop {
         case.params.put("louvain_seed", J::U(bseed(&mut rng, 1000)));
         case.params.put("resolution", J::F(*rng.pick(&[1.0, 1.0, 0.5, 2.0])));
         case.params.put("threshold", J::F(*rng.pick(&[1e-7, 1e-7, 0.0, 1e-3])));
-        case.params.put("weighted", J::Bool(rng.chance(1, 3)));
+        let graded = case.params.get("source").and_then(|j| j.str()) == Some("hub with graded spokes");
+        case.params.put("weighted", J::Bool(rng.chance(1, 3) || graded));
         case.params.put("gnp_n", J::U(rng.below(if idx % 10 == 0 { 301 } else { 40 }) as u64));
         case.params.put("gnp_p", J::F(*rng.pick(&[0.05, 0.1, 0.3, 0.5, 0.9, 0.01])));
         case.params.put("gnp_seed", J::U(bseed(&mut rng, 100000)));
@@ -325,7 +335,7 @@ impl Prop for C17Prop {
         out
     }
     fn rule(&self) -> String {
-        "tie-rich graphs (paths, cycles, unions of equal components, complete-ish bipartite, grids, cliques, stars, G(n,p); all 8 kinds; n <= 36) and fast_gnp_random_graph(n <= 300, p, directed/undirected, Some(seed)); the same call is made under 8 (quick) / 24 (thorough) environments = hash keyings x simulated pool sizes 1-16, and twice in one thread; Louvain results compared as lists of sets of sets, generator results as (node list, sorted edge list), non-randomised algorithms (betweenness, closeness, clustering, eigenvector, all_pairs distances, components, degrees, BFS as first element + set): discrete results exactly, floats at 1e-9. distinct_nontrivial = distinct (graph, arguments) compared across >= 2 environments; one case in 600 is a dense graph (1-3 blocks, 60-300 nodes) with 2 100 - 12 500 stored edges under a pool of 2-16 workers (strategy thresholds); weights also 1 + k 2^-j; shape 'hub joined to 3-5 identical parts by spokes graded in steps of 2^-41..2^-35 or one ulp' (candidates nearly but not exactly tied); one case in 40 is a circulant (regular) graph of 128-220 nodes with up to 1 980 edges; weights also with overflowing sums (Louvain only); in half of the environments the same Louvain call and a search that stops at a target run first on the same graph declared in another node order, so a result that depends on what ran on the thread before differs between environments".into()
+        "tie-rich graphs (paths, cycles, unions of equal components, complete-ish bipartite, grids, cliques, stars, G(n,p); all 8 kinds; n <= 36) and fast_gnp_random_graph(n <= 300, p, directed/undirected, Some(seed)); the same call is made under 8 (quick) / 24 (thorough) environments = hash keyings x simulated pool sizes 1-16, and twice in one thread; Louvain results compared as lists of sets of sets, generator results as (node list, sorted edge list), non-randomised algorithms (betweenness, closeness, clustering, eigenvector, all_pairs distances, components, degrees, BFS as first element + set): discrete results exactly, floats at 1e-9. distinct_nontrivial = distinct (graph, arguments) compared across >= 2 environments; one case in 600 is a dense graph (1-3 blocks, 60-300 nodes) with 2 100 - 12 500 stored edges under a pool of 2-16 workers (strategy thresholds); weights also 1 + k 2^-j; shape 'hub joined to 3-5 identical parts by spokes graded in steps of 2^-41..2^-35 or one ulp' (candidates nearly but not exactly tied); one case in 40 is a circulant (regular) graph of 128-220 nodes with up to 1 980 edges; weights also with overflowing sums (Louvain only); in half of the environments the same Louvain call and a search that stops at a target run first on the same graph declared in another node order, so a result that depends on what ran on the thread before differs between environments; in a third of the cases a battery of valid unjudged calls runs first on a sibling graph (same names and edges, other node order), in a fifth the graph is queried on the same object before its last one to three operations are applied (DESIGN.md 0.2)".into()
     }
     fn assumptions(&self) -> Vec<String> {
         vec!["fresh processes are covered by the determinism proof (tools/determinism.sh): run fingerprints, which include every output, are compared across separate processes and worker counts".into(), "seed = None paths are out of scope (OS entropy through a raw syscall the simulator does not own)".into()]
